@@ -17,7 +17,7 @@ def pct(s):
 
 
 def rand_circuit(rng, n_in=None, n_gates=None, n_out=None, n_ff=None, style=None, p_unconn=0.1,
-                 p_direct=0.2, allow_consts=True, two_out_ff=True, p_dangling=0.1, xor_bias=0.0, p_orphan_ff=0.12, p_forkchain=0.12):
+                 p_direct=0.2, allow_consts=True, two_out_ff=True, p_dangling=0.1, xor_bias=0.0, p_orphan_ff=0.12, p_forkchain=0.12, p_const=0.04):
     """returns a kyupy Circuit. style 'v': ports are cells 'input'/'output' around forks (Verilog reader style);
     style 'b': ports are forks (bench reader style)."""
     from kyupy.circuit import Circuit, Node, Line
@@ -52,7 +52,7 @@ def rand_circuit(rng, n_in=None, n_gates=None, n_out=None, n_ff=None, style=None
     direct = []        # gate nodes whose output is not yet connected (for 1:1 direct lines)
     for g in range(n_gates):
         r = rng.random()
-        if allow_consts and r < 0.04:
+        if allow_consts and r < p_const:
             kind = rng.choice(CONSTS); ar = 0
         else:
             ar = rng.choice([1, 2, 2, 2, 3, 3, 4, 4])
